@@ -300,3 +300,35 @@ example : ((({} : Stream).setKey (sharedKey 1 2) ⟨4, []⟩).run
       (fun f => match f.body with | .ct _ c => c.key == sharedKey 1 2 | .raw _ => false) = true := by decide
 
 end Cedar.C03
+
+/-! ### per-command policies: the policy that is met is the one of the command the negotiation is FOR
+
+The server may carry a policy per command (`ServerConfigForCommand`). "Its own policy" is then the
+policy of the command the handshake reports as negotiated (and a dispatching server runs) -- whatever
+else the request names (`AuthCommand`) and whatever the default policy or other commands' policies say. -/
+namespace Cedar.C03
+open Cedar Cedar.HS
+
+/-- **server_percommand_required_auth**: success for a command whose policy marks authentication
+    REQUIRED ⇒ a method listed by THAT policy completed, for every request (every `AuthCommand`). -/
+theorem server_percommand_required_auth (dflt : ServerCfg) (table : Int → Option ServerCfg) (req : CmdReq)
+    (cli : ClientScript) (sid : String) (o : Outcome) (adv : Decision)
+    (h : serverPerCommand dflt table req cli sid = .ok o adv)
+    (hreq : (policyFor dflt table req.negotiatedFor).auth = lvlRequired) :
+    ∃ m ∈ (policyFor dflt table req.negotiatedFor).methods, (m, true) ∈ o.ran ∧ cli.authOK m = some o.user :=
+  server_required_auth _ cli sid o adv h hreq
+
+/-- **server_percommand_required_enc** -/
+theorem server_percommand_required_enc (dflt : ServerCfg) (table : Int → Option ServerCfg) (req : CmdReq)
+    (cli : ClientScript) (sid : String) (o : Outcome) (adv : Decision)
+    (h : serverPerCommand dflt table req cli sid = .ok o adv)
+    (hreq : (policyFor dflt table req.negotiatedFor).enc = lvlRequired ∨ (policyFor dflt table req.negotiatedFor).integ = lvlRequired) :
+    o.streamKey.isSome = true :=
+  server_required_enc _ cli sid o adv h hreq
+
+/-- **server_percommand_ignores_authcommand**: the outcome is a function of the command alone. -/
+theorem server_percommand_ignores_authcommand (dflt : ServerCfg) (table : Int → Option ServerCfg)
+    (cmd : Option Int) (a b : Option Int) (cli : ClientScript) (sid : String) :
+    serverPerCommand dflt table ⟨cmd, a⟩ cli sid = serverPerCommand dflt table ⟨cmd, b⟩ cli sid := rfl
+
+end Cedar.C03
